@@ -161,6 +161,11 @@ def handleConfirm (j : Json) : Except String Json := do
   let l ← j.getObjValAs? String "line"
   return Json.mkObj [("accepts", toJson (Run.confirmAccepts l))]
 
+/-- {"op":"validparams","params":[Param]} → does the analyzer accept the parameter list? -/
+def handleValidParams (j : Json) : Except String Json := do
+  let ps : List Args.Param ← fromJson? (← j.getObjVal? "params")
+  return Json.mkObj [("valid", toJson (Args.validParams ps))]
+
 def handleWorkdir (j : Json) : Except String Json := do
   let c : Workdir.Ctx ← fromJson? (← j.getObjVal? "ctx")
   let a : Workdir.Attrs ← fromJson? (← j.getObjVal? "attrs")
@@ -567,6 +572,7 @@ def handle (line : String) : Json :=
       | "entries" => handleEntries j
       | "percent" => handlePercent j
       | "confirm" => handleConfirm j
+      | "validparams" => handleValidParams j
       | "args" => handleArgs j
       | "childenv" => handleChildEnv j
       | "workdir" => handleWorkdir j
